@@ -1,4 +1,6 @@
 import Dhlldv.Lemmas.Friction
+import Dhlldv.Lemmas.Hetero
+import Dhlldv.Lemmas.Homog
 import Dhlldv.Props.C01
 import Mathlib.Tactic.SplitIfs
 
@@ -6,29 +8,6 @@ import Mathlib.Tactic.SplitIfs
 Theorems over the generated models at `α := ℝ` on the envelope `InE`. -/
 
 open Real
-
-/-- 5.75 / Re^0.9 as k·v^(−0.9) with k = 5.75 (ν/Dp)^0.9 -/
-theorem c2_as_k (v Dp nu : ℝ) (hv : 0 < v) (hD : 0 < Dp) (hn : 0 < nu) :
-    5.75 / (v * Dp / nu) ^ (0.9:ℝ) = 5.75 * (nu / Dp) ^ (0.9:ℝ) * v ^ (-(0.9:ℝ)) := by
-  have h1 : v * Dp / nu = v * (Dp / nu) := by ring
-  rw [h1, Real.mul_rpow hv.le (by positivity), Real.rpow_neg hv.le, Real.div_rpow hn.le hD.le, Real.div_rpow hD.le hn.le]
-  have a : 0 < v ^ (0.9:ℝ) := Real.rpow_pos_of_pos hv _
-  have b : 0 < Dp ^ (0.9:ℝ) := Real.rpow_pos_of_pos hD _
-  have c : 0 < nu ^ (0.9:ℝ) := Real.rpow_pos_of_pos hn _
-  field_simp
-
-/-- in the turbulent branch the generated friction factor is 1.325 / L(v)² with c1 = ε/(3.7 Dp), k = 5.75 (ν/Dp)^0.9 -/
-theorem swamee_jain_as_Lv (v Dp eps nu : ℝ) (hv : 0 < v) (hD : 0 < Dp) (hn : 0 < nu)
-    (hturb : 2320 < homogeneous.pipe_reynolds_number v Dp nu) :
-    homogeneous.swamee_jain_ff (homogeneous.pipe_reynolds_number v Dp nu) Dp eps
-      = 1.325 / Lv (eps / (3.7 * Dp)) (5.75 * (nu / Dp) ^ (0.9:ℝ)) v ^ 2 := by
-  unfold homogeneous.swamee_jain_ff
-  have hnl : ¬ homogeneous.pipe_reynolds_number v Dp nu ≤ 2320.0 := by norm_num; exact hturb
-  simp only [hnl, decide_false, Bool.false_eq_true, if_false, Transc.rpow, Transc.npow, Transc.log]
-  unfold Lv
-  rw [reynolds_eq]
-  have e := c2_as_k v Dp nu hv hD hn
-  rw [e, neg_sq]
 
 section
 variable {v1 v2 Dp d eps nu rhol rhos Cv : ℝ}
@@ -94,6 +73,32 @@ theorem C04_hindered (d Rsd nu K c1 c2 : ℝ) (hd : 0 < d) (hR : 0 < Rsd) (hn : 
     nlinarith
   · have : (1 - c2) ^ beta < (1 - c1) ^ beta := Real.rpow_lt_rpow b2.le (by linarith) hb
     exact mul_lt_mul_of_pos_left this hvt
+
+/-- the free settling velocity rises strictly with grain size and with the relative submerged density -/
+theorem C04_settling_increasing (d1 d2 R1 R2 nu : ℝ) (hd : 0 < d1) (hd12 : d1 < d2) (hR : 0 < R1) (hR12 : R1 < R2) (hn : 0 < nu) :
+    heterogeneous.vt_ruby d1 R1 nu 0.26 < heterogeneous.vt_ruby d2 R1 nu 0.26 ∧
+    heterogeneous.vt_ruby d1 R1 nu 0.26 < heterogeneous.vt_ruby d1 R2 nu 0.26 :=
+  ⟨vt_ruby_mono_d d1 d2 R1 nu 0.26 hd hd12 hR hn, vt_ruby_mono_Rsd d1 R1 R2 nu 0.26 hd hn hR.le hR12⟩
+
+/-- the heterogeneous excess gradient falls strictly with line speed on E, for both settings of both correction switches -/
+theorem C04_heterogeneous_decreasing {v1 v2 Dp d eps nu rhol rhos Cvs : ℝ} (sf sq : Bool)
+    (h1 : InE v1 Dp d eps nu rhol rhos Cvs) (h2 : InE v2 Dp d eps nu rhol rhos Cvs) (h12 : v1 < v2) :
+    heterogeneous.Erhg v2 Dp d eps nu rhol rhos Cvs sf sq < heterogeneous.Erhg v1 Dp d eps nu rhol rhos Cvs sf sq :=
+  heterogeneous_Erhg_strictAnti sf sq h1 h2 h12
+
+/-- the homogeneous excess gradient lies between zero and the liquid gradient on E below the sliding-flow onset (d < 0.015 Dp) or with the
+correction off; above the onset the documented blend (Ho + (f−1) μsf)/f is still non-negative. Uses λ ≤ 8/225 on E (`InE.lambda_le`). -/
+theorem C04_homogeneous_bounds {vls Dp d eps nu rhol rhos Cvs : ℝ} (h : InE vls Dp d eps nu rhol rhos Cvs) (sf : Bool) :
+    0 ≤ homogeneous.Erhg vls Dp d eps nu rhol rhos Cvs sf ∧
+    ((sf = false ∨ d / ((Cst.particle_ratio : ℝ) * Dp) < 1) →
+      homogeneous.Erhg vls Dp d eps nu rhol rhos Cvs sf ≤ homogeneous.fluid_head_loss vls Dp eps nu rhol) :=
+  h.ho_bounds sf
+
+/-- the selected uniform-sand excess gradient for spatial-concentration input is never negative on E -/
+theorem C04_selected_nonneg {vls Dp d eps nu rhol rhos Cvs : ℝ} (h : InE vls Dp d eps nu rhol rhos Cvs) (sf sq : Bool) :
+    0 ≤ framework.Cvs_Erhg sf sq vls Dp d eps nu rhol rhos Cvs := by
+  rw [C01_value]
+  exact le_trans (h.ho_bounds true).1 (le_max_right _ _)
 
 /-! ### no jumps at the branch thresholds -/
 
